@@ -388,6 +388,16 @@ def stepExp (st : State) (w : List String) : State × String :=
     | none => (st, "bad-op")
   | ["exp", "put", zone, kind, subj, qt, soa, cut, sets] =>
     expPut st zone kind subj qt soa cut ((sets.splitOn ";").mapM parseSet) (some []) (fun _ => none)
+  | ["exp", "reput", zone, kind, subj, _qt, soa, cut, sets] =>
+    match parseName zone, parseName subj, soa.splitOn ",", (sets.splitOn ";").mapM parseSet with
+    | some zone, some subj, [sttl, smin, ssigs], some sets =>
+      match sttl.toNat?, smin.toNat?, parseSigs ssigs, (if cut == "-" then some none else cut.toInt?.map some) with
+      | some sttl, some smin, some ssigs, some cut =>
+        let b : Bundle := { zone := zone, nx := kind == "nx", subject := subj, soaTtl := sttl, soaMin := smin,
+                            soaSigs := ssigs, cut := cut, sets := sets }
+        ({ st with exp := admitBundle st.exp b }, "ok")
+      | _, _, _, _ => (st, "bad-op")
+    | _, _, _, _ => (st, "bad-op")
   | ["exp", "put3", zone, kind, subj, qt, soa, cut, sets3, ht] =>
     match parseHT ht with
     | some ht => expPut st zone kind subj qt soa cut (some []) ((sets3.splitOn ";").mapM parseSet3) (htFn ht)
@@ -408,6 +418,7 @@ def step (st : State) (w : List String) : State × String :=
   | "h" :: _ => stepNsec3 st w
   | "adm" :: _ => stepAdm st w
   | "exp" :: _ => stepExp st w
+  | "p" :: _ => (st, "unmodelled")
   | _ => (st, "bad-op")
 
 end Driver.C02
